@@ -28,6 +28,7 @@ SPEC = dict(
               "read-fonts collections/int_set/sparse_bit_set.rs decode_sparse_bit_set_nodes: filled-node range (start/end with bias and limit), child start accumulation, leaf value",
               "skrifa autohint/topo/segments.rs link_segments_default score term (oracle-only tie), autohint derived_constant",
               "read-fonts postscript/index.rs Index1/Index2::get + read_offset positions; postscript/charstring.rs callsubr/callgsubr biased index",
+              "skrifa color/instance.rs ColrInstance::var_deltas variation index, with and without DeltaSetIndexMap (oracle-only tie)",
               "read-fonts layout.rs CoverageFormat2::get index, Device::iter value count; svg.rs Svg::glyph_data document range",
               "read-fonts: gvar.rs GlyphDelta::apply_scalar, cvar.rs CvtDelta::apply_scalar, cmap.rs Cmap12 map_codepoint/lookup_glyph_id (one group), hmtx.rs advance / side_bearing index arithmetic",
               "read-fonts: glyf.rs midpoint_i32; fvar.rs VariationAxisRecord::normalize; avar.rs SegmentMaps::apply; cmap.rs Cmap4::map_codepoint + lookup_glyph_id; lib.rs codegen_prelude::transforms::*; tables.rs compute_checksum"],
